@@ -27,7 +27,7 @@ for i in ids:
             "engine": "vh",
             "level_claimed": {"category": cat, "text": text, "design_ref": ref},
             "level_note": note,
-            "technique": tech,
+            "technique": tech + "; thorough tier adds a coverage-guided libFuzzer campaign (AddressSanitizer) " + ("over the decoder entry points" if i == "C10" else "whose inputs are cases of this check and whose mutator is structure-aware (list surgery on steps/operations, grafts from generated donor cases)"),
         })
     else:
         na.append({"property_id": i, "reason": NOT_CLAIMED.get(i, "check not built yet in this session; property-based testing applies (see DESIGN.md section 4) and the check is under construction")})
@@ -44,11 +44,11 @@ m = {
     },
     "engines": [
         {"name": "vh", "path": "/verif/harness", "serves_properties": sorted(CLAIMED.keys()),
-         "kind_free_text": "Rust crate: proptest-driven generators (fixed ChaCha seeds derived from VERIF_SEED, 16 shards), manual shrink loop, reference-model/differential/metamorphic oracles, enumerated small universes, replay files, known-findings matcher, evidence writer"},
+         "kind_free_text": "Rust crate: proptest-driven generators (fixed ChaCha seeds derived from VERIF_SEED, 16 shards), manual shrink loop, reference-model/differential/metamorphic oracles, enumerated small universes, replay files, known-findings matcher, evidence writer; /verif/fuzz = cargo-fuzz crate with a generic structure-aware target (prop) and a decoders target, run by the thorough tiers through /verif/checks/fuzz_campaign.sh"},
     ],
     "checks": checks,
     "not_applicable": na,
-    "notes": "All checks: exit 0 held / 1 violation (VIOLATION line) / 2 inconclusive (build failure or watchdog). Known findings: /verif/known_findings.json.",
+    "notes": "All checks: exit 0 held / 1 violation (VIOLATION line) / 2 inconclusive (build failure or watchdog). Known findings: /verif/known_findings.json. A replay file with \"asan\": true is replayed in the AddressSanitizer build of the libFuzzer target (run.sh does that by itself).",
 }
 json.dump(m, open('/verif/MANIFEST.json', 'w'), indent=1)
 print("claimed:", sorted(CLAIMED.keys()), "not claimed:", [x['property_id'] for x in na])
